@@ -54,6 +54,8 @@ def run_property(pid: str, tier: str, repo_root: str, only: str | None = None) -
         chk.locals_of = locals_of
         chk.firm = bool(getattr(mod, 'FIRM', False))
         mod.run(repo, chk, tier)
+        from .props import hygiene
+        hygiene.run(repo, chk, pid)
         if tier == 'thorough' and hasattr(mod, 'run_thorough'):
             mod.run_thorough(repo, chk)
     except AnalysisError as e:
